@@ -187,3 +187,135 @@ func pkgFuncs(c *core.Ctx, rel string) []*ssa.Function {
 	}
 	return out
 }
+
+// findFunc resolves an anchor: by name first (cheap, exact); if the name is gone (an unexported helper was
+// renamed), by role - the unique function of the package that satisfies the predicate. nil when unresolvable.
+func findFunc(c *core.Ctx, rel, name string, role func(*ssa.Function) bool) *ssa.Function {
+	if fn := c.P.Func(rel, name); fn != nil {
+		return fn
+	}
+	if role == nil {
+		return nil
+	}
+	var found []*ssa.Function
+	for _, fn := range pkgFuncs(c, rel) {
+		if fn.Parent() == nil && role(fn) {
+			found = append(found, fn)
+		}
+	}
+	if len(found) == 1 {
+		return found[0]
+	}
+	return nil
+}
+
+func callsAny(fn *ssa.Function, names ...string) bool {
+	hit := false
+	ssax.Instrs(fn, func(ins ssa.Instruction) {
+		if cc := ssax.CallOf(ins); cc != nil {
+			n := ssax.CalleeName(cc)
+			for _, w := range names {
+				if n == w || (strings.HasSuffix(w, "*") && strings.HasPrefix(n, strings.TrimSuffix(w, "*"))) {
+					hit = true
+				}
+			}
+		}
+	})
+	return hit
+}
+
+func recvNamed(fn *ssa.Function, typeName string) bool {
+	r := fn.Signature.Recv()
+	if r == nil {
+		return false
+	}
+	n := namedOf(r.Type())
+	return n != nil && n.Obj().Name() == typeName
+}
+
+func sigIs(fn *ssa.Function, params []string, results []string) bool {
+	sig := fn.Signature
+	if sig.Params().Len() != len(params) || sig.Results().Len() != len(results) {
+		return false
+	}
+	for i, p := range params {
+		if p != "" && ssax.ShortType(sig.Params().At(i).Type()) != p {
+			return false
+		}
+	}
+	for i, r := range results {
+		if r != "" && ssax.ShortType(sig.Results().At(i).Type()) != r {
+			return false
+		}
+	}
+	return true
+}
+
+// role predicates for the unexported anchors
+func rolePoolReader(fn *ssa.Function) bool {
+	return recvNamed(fn, "conn") && callsAny(fn, pBinprot+".ReadResponseHeader")
+}
+func rolePoolSerialiser(fn *ssa.Function) bool {
+	return recvNamed(fn, "conn") && callsAny(fn, pBinprot+".Write*")
+}
+func rolePoolReconnect(fn *ssa.Function) bool { return recvNamed(fn, "conn") && callsAny(fn, "net.Dial") }
+func rolePoolRecovery(fn *ssa.Function) bool {
+	return recvNamed(fn, "conn") && callsAny(fn, "builtin.close") && !callsAny(fn, pBinprot+".ReadResponseHeader")
+}
+func roleAbort(fn *ssa.Function) bool {
+	return fn.Signature.Recv() == nil && sigIs(fn, []string{"[]io.Closer", "error"}, nil)
+}
+func roleStatusEncoder(fn *ssa.Function) bool {
+	return fn.Signature.Recv() == nil && sigIs(fn, []string{"error"}, []string{"uint16"})
+}
+func roleBucketFn(fn *ssa.Function) bool {
+	return fn.Signature.Recv() == nil && sigIs(fn, []string{"uint64"}, []string{"uint64"}) && callsAny(fn, core.Mod+"/metrics.lzcnt")
+}
+func roleStdGetE(fn *ssa.Function) bool { return callsAny(fn, pBinprot+".WriteGetECmd") }
+func roleMetaReader(fn *ssa.Function) bool {
+	return fn.Signature.Recv() == nil && sigIs(fn, []string{"io.Reader"}, []string{"handlers/memcached/chunked.metadata", "error"})
+}
+func roleMetaWriter(fn *ssa.Function) bool {
+	return fn.Signature.Recv() == nil && sigIs(fn, []string{"io.Writer", "handlers/memcached/chunked.metadata"}, []string{"error"})
+}
+func roleReqHeaderReader(fn *ssa.Function) bool {
+	return fn.Signature.Recv() == nil && sigIs(fn, []string{"io.Reader"}, []string{"*protocol/binprot.RequestHeader", "error"})
+}
+func roleReqHeaderWriter(fn *ssa.Function) bool {
+	return fn.Signature.Recv() == nil && sigIs(fn, []string{"io.Writer", "*protocol/binprot.RequestHeader"}, []string{"error"})
+}
+func roleResHeaderWriter(fn *ssa.Function) bool {
+	return fn.Signature.Recv() == nil && sigIs(fn, []string{"io.Writer", "*protocol/binprot.ResponseHeader"}, []string{"error"})
+}
+func roleMakeReqHeader(fn *ssa.Function) bool {
+	return fn.Signature.Recv() == nil && fn.Signature.Results().Len() == 1 && ssax.ShortType(fn.Signature.Results().At(0).Type()) == "*protocol/binprot.RequestHeader" && fn.Signature.Params().Len() > 1
+}
+func storesConstStatus(fn *ssa.Function, wantConst bool) bool {
+	ok := false
+	ssax.Instrs(fn, func(ins ssa.Instruction) {
+		if st, isSt := ins.(*ssa.Store); isSt {
+			if n, _ := ssax.FieldName(st.Addr); n == "Status" {
+				_, isC := ssax.ConstInt(st.Val)
+				if isC == wantConst {
+					ok = true
+				}
+			}
+		}
+	})
+	return ok
+}
+func roleSuccessHeaderWriter(fn *ssa.Function) bool {
+	return fn.Signature.Recv() == nil && fn.Signature.Params().Len() >= 5 && storesConstStatus(fn, true)
+}
+func roleErrorHeaderWriter(fn *ssa.Function) bool {
+	return fn.Signature.Recv() == nil && fn.Signature.Params().Len() >= 3 && storesConstStatus(fn, false)
+}
+
+// isAbortCallee: a static call of the server package's closer-aborting function (func([]io.Closer, error)).
+func isAbortCallee(cc *ssa.CallCommon) bool {
+	if cc == nil {
+		return false
+	}
+	f := cc.StaticCallee()
+	return f != nil && f.Pkg != nil && f.Pkg.Pkg.Path() == core.Mod+"/server" && roleAbort(f)
+}
